@@ -501,10 +501,24 @@ class DiskCache(_CacheBase):
         return self.lru_cache.shared if self.with_lru_cache else True
 
 
+def _ordered(obj: Any) -> Any:
+    """Replace the (frozen)sets inside a key by sorted tuples.
+
+    ``pickle`` writes the elements of a set in iteration order, which depends on the hash
+    seed for ``str``/``bytes`` elements: the same key would get another file name in
+    another process.
+    """
+    if type(obj) is tuple:
+        return tuple(_ordered(x) for x in obj)
+    if isinstance(obj, (frozenset, set)):
+        return (type(obj), tuple(sorted((_ordered(x) for x in obj), key=_sort_key)))
+    return obj
+
+
 def _pickle_key(obj: Any) -> str:
     # Based on the implementation of `diskcache` although that also
     # does pickle_tools.optimize which we don't need here
-    data = pickle.dumps(obj, protocol=pickle.HIGHEST_PROTOCOL)
+    data = pickle.dumps(_ordered(obj), protocol=pickle.HIGHEST_PROTOCOL)
     return hashlib.md5(data).hexdigest()  # noqa: S324
 
 
